@@ -47,9 +47,9 @@ func positions(n, dense int) []int {
 // sequence is a function of (entry, tier, seed) only.
 func forEachInput(e Entry, thorough bool, rng *rand.Rand, fn func(class string, pos int, in []byte)) {
 	dense := 160
-	havoc := 150
+	havoc := 400
 	if thorough {
-		dense, havoc = 1200, 6000
+		dense, havoc = 1500, 40000
 	}
 	// raw inputs
 	fn("raw", 0, []byte{})
